@@ -20,6 +20,9 @@ from mc.flo import runner
 def family():
     from mc.flo import families as F
     yield from F.fam_restart()
+    for label, prog, meta in F.fam_plain_aux(quick=True):
+        if "/handover/" in label and (core.TIER != "quick" or "/repeat1/" in label):
+            yield label, prog, meta          # shared original aux handed over between frames: never entered twice
     # plain auxiliaries that complete (done) BEFORE their main frame is exited: their frames stay entered until then
     for label, prog, meta in F.fam_plain_aux(quick=True):
         kind, var = label.split("/")[1:3]
